@@ -102,7 +102,9 @@ def _scalar(rng, one_line=True):
         return rng.random() < 0.5
     if r < 0.85:
         return rng.choice(["", "x", "localhost", "a b", "q\"uote", "back\\slash", "ünï 日本", "# not a comment",
-                           "[not a header]", "a = 1", "tab\t", "'single'"])
+                           "[not a header]", "a = 1", "tab\t", "'single'",
+                           # characters that str.splitlines() (but not TOML) takes for line ends
+                           "{time}\u2028[{level}] {message}", "a\u2029[b]", "x\u0085 [y]", "one\u2028two"])
     if r < 0.9:
         return {"$dt": rng.choice(["1979-05-27T07:32:00Z", "2020-02-29T23:59:59.999+05:30", "1979-05-27T07:32:00"])}
     if r < 0.95:
@@ -213,7 +215,7 @@ def emit(rng, doc, feats):
             feats.add("indent")
         tail = ""
         if rng.random() < 0.12:
-            tail = rng.choice(["  # trailing", " #c", "\t# [x]"])
+            tail = rng.choice(["  # trailing", " #c", "\t# [x]", "  # see also\u2028[advanced]", " # note\u2029[x]\u0085[y]"])
             feats.add("trailing-comment")
         return ind + line + tail
 
@@ -223,7 +225,7 @@ def emit(rng, doc, feats):
             lines.append("")
             feats.add("blank")
         elif r < 0.22:
-            lines.append(rng.choice(["# a comment", "#", "  # indented comment", "# [fake.header]", "# key = 1"]))
+            lines.append(rng.choice(["# a comment", "#", "  # indented comment", "# [fake.header]", "# key = 1", "# two\u2028[lines]", "# nel\u0085[x]"]))
             feats.add("comment")
 
     def body_lines(path, d, lines, prefix=()):
